@@ -78,3 +78,41 @@ Theorem C03_session_write_accumulates :
                      (forall sid', sid' <> sid -> routed ds' sid' = routed ds sid').
 Proof. exact session_write_accumulates. Qed.
 Print Assumptions C03_session_write_accumulates.
+
+(* ---------------- listings (Model/DriverExt.v) ----------------
+   ListCollections / ListCollectionNames and ListDatabases / ListDatabaseNames
+   are reads of the session's view: pure, and a function of that view alone
+   (a session with an open transaction sees the collections it created, other
+   clients do not until the commit). *)
+From Lungo.Model Require Import DriverExt.
+From Lungo.Proofs Require Import DriverExtProofs.
+
+Theorem C03_listings_are_pure :
+  forall matchf applyf extractf projectf now ds x,
+    x_is_listing x = true -> fst (xstep matchf applyf extractf projectf now ds x) = ds.
+Proof. exact listing_pure. Qed.
+Print Assumptions C03_listings_are_pure.
+
+Theorem C03_list_collections_depends_on_view :
+  forall matchf applyf extractf projectf now ds1 ds2 sid db q,
+    view ds1 sid = view ds2 sid ->
+    snd (xstep matchf applyf extractf projectf now ds1 (XListColls sid db q)) =
+    snd (xstep matchf applyf extractf projectf now ds2 (XListColls sid db q)).
+Proof. exact list_collections_depends_on_view. Qed.
+Print Assumptions C03_list_collections_depends_on_view.
+
+Theorem C03_list_databases_depends_on_view :
+  forall matchf applyf extractf projectf now ds1 ds2 sid q,
+    view ds1 sid = view ds2 sid ->
+    snd (xstep matchf applyf extractf projectf now ds1 (XListDbs sid q)) =
+    snd (xstep matchf applyf extractf projectf now ds2 (XListDbs sid q)).
+Proof. exact list_databases_depends_on_view. Qed.
+Print Assumptions C03_list_databases_depends_on_view.
+
+(* CreateCollection never joins a session transaction: it is refused there *)
+Theorem C03_create_collection_in_session_rejected :
+  forall matchf applyf extractf projectf now ds sid h tc,
+    routed ds sid = Some tc ->
+    xstep matchf applyf extractf projectf now ds (XCreateColl sid h) = (ds, XR (RErr EErr)).
+Proof. exact create_coll_in_session_rejected. Qed.
+Print Assumptions C03_create_collection_in_session_rejected.
